@@ -399,13 +399,15 @@ fn dechunk(mut b: &[u8]) -> Option<Vec<u8>> {
     let mut out = Vec::new();
     loop {
         let line_end = b.windows(2).position(|w| w == b"\r\n")?;
-        let size =
-            usize::from_str_radix(std::str::from_utf8(&b[..line_end]).ok()?.trim(), 16).ok()?;
+        // The size is the hex number up to an optional `;chunk-extension`.
+        let size_line = &b[..line_end];
+        let size_hex = size_line.split(|c| *c == b';').next().unwrap_or(size_line);
+        let size = usize::from_str_radix(std::str::from_utf8(size_hex).ok()?.trim(), 16).ok()?;
         b = &b[line_end + 2..];
         if size == 0 {
             return Some(out);
         }
-        if b.len() < size + 2 {
+        if b.len() < size.checked_add(2)? {
             return None;
         }
         out.extend_from_slice(&b[..size]);
